@@ -72,7 +72,7 @@ def run(R):
         R.violation("harness does not build against /repo", {"build_log": R.harness_log[-3000:]}, no_input=True)
         return
     corpus = vlib.load_corpus(PID)
-    n = 1200 if R.tier == "quick" else 30000
+    n = 1200 if R.tier == "quick" else 90000
     gen = [gen_case(R.rng) for _ in range(n)]
     cases = corpus + [g[0] for g in gen]
     groups = [[] for _ in corpus] + [g[1] for g in gen]
